@@ -33,6 +33,7 @@ func drawC18(t *rapid.T, x *X) *Case {
 		}
 		j.Plan = drawPlan(t, g, 2, true, false)
 		j.Plan.TryStateWrites = gspec.U(t, 2, "trywrites") == 0
+		j.ViaReader = gspec.U(t, 3, "viareader") == 0
 		j.Opts.Memoize = gspec.U(t, 3, "memo") == 0
 		j.Opts.Stats = gspec.U(t, 4, "stats") == 0
 		if g.HasState && gspec.U(t, 2, "initstate") == 0 {
@@ -42,10 +43,15 @@ func drawC18(t *rapid.T, x *X) *Case {
 		}
 		c.Jobs = append(c.Jobs, j)
 	}
+	if gspec.U(t, 4, "sharedopts") == 0 {
+		// all calls get one and the same option list (that of the first job)
+		c.Aux = map[string]int{"shared": 1}
+	}
 	return c
 }
 
 type jobResult struct {
+	raw         any
 	value, errs string
 	events      []vrt.Event
 	panicked    bool
@@ -56,15 +62,33 @@ func runJob(pk PkgMeta, j *Job, safety uint64) *jobResult {
 	reg := vrt.Lookup(pk.Name)
 	ctx := vrt.NewCtx(j.Plan)
 	req := &vrt.Request{Entry: j.Entry, Filename: j.Opts.Filename, Input: j.Input, Memoize: j.Opts.Memoize && !pk.Optimized, Stats: j.Opts.Stats && !pk.Optimized,
-		MaxExpr: safety, InitState: initStateOf(j.Opts), Ctx: ctx}
+		MaxExpr: safety, InitState: initStateOf(j.Opts), Ctx: ctx, ViaReader: j.ViaReader}
 	if len(j.Opts.InitInts) > 0 && !pk.HasInitState {
 		req.InitState = nil
 	}
 	r := &jobResult{start: time.Now()}
 	resp := reg.Run(req)
 	r.end = time.Now()
-	r.value, r.errs, r.events, r.panicked = vrt.Canon(resp.Value), resp.ErrText, ctx.Events, resp.Panicked
+	r.raw, r.errs, r.events, r.panicked = resp.Value, resp.ErrText, ctx.Events, resp.Panicked
 	return r
+}
+
+// runShared runs the jobs' inputs with the option list of the first job, shared by all calls.
+func runShared(pk PkgMeta, c *Case, safety uint64, concurrent bool) []*jobResult {
+	reg := vrt.Lookup(pk.Name)
+	j0 := &c.Jobs[0]
+	reqs := make([]*vrt.Request, len(c.Jobs))
+	for i := range c.Jobs {
+		reqs[i] = &vrt.Request{Entry: j0.Entry, Filename: c.Jobs[i].Opts.Filename, Input: c.Jobs[i].Input, Memoize: j0.Opts.Memoize && !pk.Optimized, MaxExpr: safety}
+	}
+	start := time.Now()
+	resps := reg.RunShared(reqs, concurrent)
+	end := time.Now()
+	out := make([]*jobResult, len(resps))
+	for i, resp := range resps {
+		out[i] = &jobResult{raw: resp.Value, errs: resp.ErrText, panicked: resp.Panicked, start: start, end: end}
+	}
+	return out
 }
 
 func sameJob(a, b *jobResult) string {
@@ -115,6 +139,24 @@ func checkC18(x *X, c *Case, strict bool) *Outcome {
 	}
 	for _, pk := range livePkgs(x.G) {
 		beginCase(x.G.ID, pk.Name, c)
+		if c.Aux["shared"] == 1 && vrt.Lookup(pk.Name).RunShared != nil {
+			old := runtime.GOMAXPROCS(c.Procs)
+			conc := runShared(pk, c, safety, true)
+			runtime.GOMAXPROCS(old)
+			alone := runShared(pk, c, safety, false)
+			endCase()
+			o.Evals += 2 * len(c.Jobs)
+			for i := range conc {
+				alone[i].value, conc[i].value = vrt.Canon(alone[i].raw), vrt.Canon(conc[i].raw)
+				if d := sameJob(alone[i], conc[i]); d != "" {
+					o.Viol = viol(pk, c, "concurrent_differs", fmt.Sprintf("call %d of %d sharing one option list (GOMAXPROCS=%d): %s", i, len(c.Jobs), c.Procs, d), "", "")
+					return o
+				}
+			}
+			o.Nontrivial = o.Nontrivial || len(c.Jobs) >= 2
+			o.Tags = append(o.Tags, "shared_option_list")
+			continue
+		}
 		old := runtime.GOMAXPROCS(c.Procs)
 		conc := make([]*jobResult, len(c.Jobs))
 		var wg sync.WaitGroup
@@ -136,6 +178,13 @@ func checkC18(x *X, c *Case, strict bool) *Outcome {
 		alone := make([]*jobResult, len(c.Jobs))
 		for i := range c.Jobs {
 			alone[i] = runJob(pk, &c.Jobs[i], safety)
+			// a value is looked at right after its own call here, and only after every other call
+			// has returned in the concurrent phase: a result must not point into memory that a
+			// later call reuses
+			alone[i].value = vrt.Canon(alone[i].raw)
+		}
+		for i := range conc {
+			conc[i].value = vrt.Canon(conc[i].raw)
 		}
 		endCase()
 		o.Evals += 2 * len(c.Jobs)
